@@ -700,13 +700,19 @@ static int32_t utc_load(struct jls_core_s * self, uint16_t signal_id) {
     }
 
     struct jls_signal_def_s * signal_def = &signal->signal_def;
-    signal->track_fsr->tmap = jls_tmap_alloc(signal_def->sample_rate);
-    if (NULL == signal->track_fsr->tmap) {
+    struct jls_tmap_s * tmap = jls_tmap_alloc(signal_def->sample_rate);
+    if (NULL == tmap) {
         return JLS_ERROR_NOT_ENOUGH_MEMORY;
     }
     int64_t sample_rate = signal_def->sample_rate;
     int64_t sample_start = -3600 * sample_rate;  // within the last hour
-    return jls_core_utc(self, signal_id, sample_start, jls_tmap_add_cbk, signal->track_fsr->tmap);
+    int32_t rc = jls_core_utc(self, signal_id, sample_start, jls_tmap_add_cbk, tmap);
+    if (rc) {
+        jls_tmap_free(tmap);  // a partial map must not answer later requests
+        return rc;
+    }
+    signal->track_fsr->tmap = tmap;
+    return 0;
 }
 
 JLS_API int32_t jls_rd_sample_id_to_timestamp(struct jls_rd_s * self, uint16_t signal_id,
